@@ -21,6 +21,10 @@ import (
 // version loaded + retained variables".
 
 func c17source(v int) string {
+	// bodies that differ between the versions only in operands of fused instructions
+	step := []string{"i++", "i--", "i += 2"}[v]
+	field := []string{"X", "Y", "Z"}[v]
+	sum := []string{"a + b", "a + c", "a + a"}[v] // the left operand stays: only operand B of LOCALADD differs
 	return fmt.Sprintf(`package live
 
 import (
@@ -50,9 +54,26 @@ var holder *T
 var boundV func(...int) string
 var capFV func(...int) string
 var captured bool
+var zeroed int = 0
+var capD func() int
 var capG func() string
 var box *util.Box
 var boundB func() string
+
+type T2 struct {
+	X int
+	Y int
+	Z int
+}
+
+func Delta() int {
+	i := 10
+	%[2]s
+	xs := []int{5, 6, 7}
+	t := &T2{X: 1, Y: 2, Z: 3}
+	a, b, c := 1, 2, 3
+	return i*1000 + xs[%[1]d]*100 + t.%[3]s*10 + (%[4]s)
+}
 
 func F() string {
 	return "F%[1]d"
@@ -84,7 +105,7 @@ func helper() string {
 }
 
 func Main() {
-	fmt.Println(F(), (&T{}).M(), helper(), Shadow(), util.Greet())
+	fmt.Println(F(), (&T{}).M(), helper(), Shadow(), util.Greet(), Delta(), zeroed)
 	keep++
 	fmt.Println(keep, reinit, anyv, named == nil)
 	reinit++
@@ -98,6 +119,7 @@ func Capture() {
 	boundV = inst.V
 	capFV = FV
 	capG = util.Greet
+	capD = Delta
 	box = &util.Box{}
 	boundB = box.Name
 	captured = true
@@ -109,12 +131,13 @@ func UseCaptured() {
 		return
 	}
 	fmt.Println(capF(), inst.M(), bound(), holder.f(), boundV(1, 2), capFV(3), inst.V())
-	fmt.Println(capG(), util.Greet(), box.Name(), boundB())
+	fmt.Println(capG(), util.Greet(), box.Name(), boundB(), capD())
 }
 
 func Bump() {
 	keep++
 	reinit++
+	zeroed += 5
 	anyv = keep
 	named = &T{n: keep}
 }
@@ -127,7 +150,7 @@ func Yielding() {
 		fmt.Println(capF(), bound())
 	}
 }
-`, v)
+`, v, step, field, sum)
 }
 
 // the imported package lives at an import path that differs from its package name
@@ -137,8 +160,11 @@ func c17util(v int) string {
 
 var c17events = []string{"Load(v0)", "Load(v1)", "Load(v2)", "Main", "Capture", "UseCaptured", "Bump", "Yielding", "Yielding+reload(v0)", "Yielding+reload(v1)", "Yielding+reload(v2)"}
 
+var c17delta = []int{11*1000 + 5*100 + 1*10 + 3, 9*1000 + 6*100 + 2*10 + 4, 12*1000 + 7*100 + 3*10 + 2}
+
 type c17ref struct {
 	ver, keep, reinit int
+	zeroed            int
 	captured          bool
 	anyv              string // printed form of the any-typed variable
 	namedSet          bool
@@ -152,9 +178,10 @@ func (s *c17ref) step(ev int) string {
 	case ev <= 2:
 		s.ver = ev
 		s.reinit = 10
+		s.zeroed = 0
 		return ""
 	case ev == 3:
-		out := fmt.Sprintf("%s %s %s-%s 87 G%d\n", tag(), mt(), tag(), mt(), s.ver)
+		out := fmt.Sprintf("%s %s %s-%s 87 G%d %d %d\n", tag(), mt(), tag(), mt(), s.ver, c17delta[s.ver], s.zeroed)
 		s.keep++
 		if s.anyv == "" {
 			s.anyv = "nil"
@@ -169,10 +196,11 @@ func (s *c17ref) step(ev int) string {
 		if !s.captured {
 			return "nocap\n"
 		}
-		return fmt.Sprintf("%s %s %s %s V%d/2 FV%d/1 V%d/0\nG%d G%d B%d B%d\n", tag(), mt(), mt(), tag(), s.ver, s.ver, s.ver, s.ver, s.ver, s.ver, s.ver)
+		return fmt.Sprintf("%s %s %s %s V%d/2 FV%d/1 V%d/0\nG%d G%d B%d B%d %d\n", tag(), mt(), mt(), tag(), s.ver, s.ver, s.ver, s.ver, s.ver, s.ver, s.ver, c17delta[s.ver])
 	case ev == 6:
 		s.keep++
 		s.reinit++
+		s.zeroed += 5
 		s.anyv = fmt.Sprint(s.keep)
 		s.namedSet = true
 		return ""
@@ -181,6 +209,7 @@ func (s *c17ref) step(ev int) string {
 		if ev >= 8 {
 			s.ver = ev - 8
 			s.reinit = 10
+			s.zeroed = 0
 		}
 		out += fmt.Sprintf("%s %s-%s\n", tag(), tag(), mt())
 		if s.captured {
@@ -264,7 +293,7 @@ func c17run(r *report.Run) {
 		depth = 6
 	}
 	r.Rule(fmt.Sprintf("all histories of length <= %d over 11 events (3 loads, Main, Capture, UseCaptured, Bump, Yielding x {no reload, reload v0/v1/v2 from inside the running call}) starting from a freshly loaded v0, each replayed on a fresh VM; non-trivial = history with a capture, a later load of a different version and a later use of the captured values", depth))
-	r.Assume("reference: every call made after a load prints the tag of the last loaded version (by name, captured function value, struct field, bound method, function value and bound method of an imported package whose import path differs from its name, and later in the function that was running during the reload); keep never reset; reinit = 10 after each load", "state contains unbounded counters, so no state merging is attempted")
+	r.Assume("reference: every call made after a load prints the tag of the last loaded version (by name, captured function value, struct field, bound method, function value and bound method of an imported package whose import path differs from its name, and later in the function that was running during the reload); keep never reset; reinit = 10 and zeroed (declared `int = 0`) = 0 after each load; a function whose versions differ only in operands of fused instructions (i++ / i-- / i += 2, xs[0] / xs[1] / xs[2], t.X / t.Y / t.Z, a+b / a+c / a+a) is called directly and through a captured value", "state contains unbounded counters, so no state merging is attempted")
 	n := len(c17events)
 	total := 0
 	for d := 1; d <= depth; d++ {
